@@ -200,6 +200,21 @@ def run_harness(args, stdin_path=None, timeout=3600, env=None):
     return r.stdout, time.time() - t
 
 
+def run_harness_raw(args, timeout=3600, env=None):
+    """like run_harness, but abnormal termination is returned, not raised: (rc, stdout, stderr, timed_out, wall)"""
+    pvh = ensure_harness()
+    t = time.time()
+    e = dict(os.environ)
+    if env:
+        e.update(env)
+    try:
+        r = subprocess.run([pvh] + args, stdout=subprocess.PIPE, stderr=subprocess.PIPE, text=True, timeout=timeout, env=e)
+    except subprocess.TimeoutExpired as ex:
+        out = ex.stdout if isinstance(ex.stdout, str) else (ex.stdout or b"").decode("utf-8", "replace")
+        return None, out, "", True, time.time() - t
+    return r.returncode, r.stdout, r.stderr, False, time.time() - t
+
+
 # --------------------------------------------------------------------------- TLC
 class TlcResult:
     def __init__(self):
@@ -250,8 +265,10 @@ def run_tlc(module, cfg=None, modules_dir=None, extra_files=(), env=None, worker
     line_cb(tag, payload) is called for every printed <<"TAG", payload>> tuple (streaming, so
     that millions of REPLAY lines need not be kept); otherwise they are collected in .printed"""
     res = TlcResult()
-    run_dir = os.path.join(CACHE, "tlc-%d-%d" % (os.getpid(), int(time.time() * 1000) % 10 ** 9))
-    os.makedirs(run_dir, exist_ok=True)
+    # unique per call: batches are validated by several threads of one process at the same time
+    import tempfile
+    os.makedirs(CACHE, exist_ok=True)
+    run_dir = tempfile.mkdtemp(prefix="tlc-%d-" % os.getpid(), dir=CACHE)
     try:
         for fn in os.listdir(SPEC):
             if fn.endswith(".tla"):
